@@ -15,7 +15,7 @@ from . import adapters, digest, recipes
 
 PLOG_OPS = ["evaluate", "evaluate_propositions", "assume", "reduce", "negate", "errors", "flatten", "variables", "is_tautology",
             "is_contradiction", "equation_bounds", "to_json", "to_text", "to_short", "to_b64", "to_ge_polyhedron", "solve", "b64_roundtrip"]
-CFG_OPS = ["ge_polyhedron", "default_prios", "leafs", "select", "add", "json_roundtrip"]
+CFG_OPS = ["ge_polyhedron", "default_prios", "leafs", "select", "select_failing_solver", "add", "json_roundtrip"]
 DERIVING = {"assume", "reduce", "negate", "add", "json_roundtrip", "b64_roundtrip"}
 
 
@@ -122,6 +122,12 @@ def apply_op(obj, op, args):
     if op == "select":
         out = list(obj.select(*[dict(p) for p in args[0]], solver=exact_solver(), only_leafs=bool(args[1])))
         return [dict(r) if isinstance(r, dict) else (dict(r[0]), r[1], r[2]) for r in out], None
+    if op == "select_failing_solver":
+        def failing(polyhedron, objectives):
+            if args[0] == "raise":
+                raise RuntimeError("no licence for the solver available right now")
+            return [(None, 0, 4) for _ in objectives]
+        return list(obj.select({}, solver=failing)), None
     if op == "add":
         r = obj.add(recipes.build(args[0], {}))
         return r, r
